@@ -31,6 +31,10 @@ def run(rep, F, ctx):
     rep.analysed['vfsentry_arms'] = n2
     rep.analysed['stdfs_forwarders'] = n3
     rep.analysed['pathext_forwarders'] = n4
+    import siteguard as _sg
+    from callgraph import CallGraph as _CG
+    _t = engine.load_table('site_guards.json')
+    _sg.site_guard(rep, F, _CG(F), _t, _t['_groups']['C13'])
     return engine.finish(
         rep, 'proof', EXPLANATION,
         assumptions=['rustc nightly MIR construction and trait resolution are correct',
